@@ -174,6 +174,32 @@ Proof.
   - rewrite Forall_forall in Hlen. pose proof (Hlen _ Hin) as H1. pose proof (Hlen _ Hin') as H2. simpl in *. congruence.
 Qed.
 
+(* ---- totals in (0, float_min) *)
+Lemma tiny_wd s t : s == t -> tiny s = tiny t.
+Proof.
+  intro H. unfold tiny. f_equal; f_equal; apply eq_true_iff_eq; rewrite !Qle_bool_iff; rewrite H; reflexivity.
+Qed.
+
+Lemma tiny_iff s : tiny s = true <-> 0 < s /\ s < float_min.
+Proof.
+  unfold tiny. rewrite andb_true_iff, !negb_true_iff. split.
+  - intros [H0 Hm]. split; apply Qnot_le_lt; intro Hle; apply Qle_bool_iff in Hle; congruence.
+  - intros [H0 Hm]. split; apply not_true_is_false; intro Hle; apply Qle_bool_iff in Hle; lra.
+Qed.
+
+Lemma float_min_small : float_min < 1 # 2.
+Proof. unfold float_min, Qlt. cbn [Qnum Qden]. vm_compute. reflexivity. Qed.
+
+Lemma tiny_not_close s : tiny s = true -> close1 s = false.
+Proof.
+  intro Ht. apply tiny_iff in Ht. destruct Ht as [Hpos Hm]. pose proof float_min_small as Hf.
+  destruct (close1 s) eqn:E; [|reflexivity]. exfalso.
+  apply close1_spec in E. unfold rel_tol in E.
+  assert (Ha : Qabs (s - 1) == 1 - s) by (rewrite Qabs_Qminus; apply Qabs_pos; lra).
+  assert (Hb : Qabs s == s) by (apply Qabs_pos; lra).
+  rewrite Ha, Hb in E. destruct E as [E|E]; lra.
+Qed.
+
 (* ---- the constructor *)
 Lemma make_rejects_invalid d n : valid d = false -> make d n = Err RuntimeErr.
 Proof. intro H. unfold make. rewrite H. reflexivity. Qed.
@@ -193,6 +219,7 @@ Proof.
   destruct (close1 (mass d)) eqn:Ec; [left; inversion H; auto|right].
   unfold normalize_dict in H.
   destruct (Qeq_bool (mass d) 0) eqn:E0; [discriminate|].
+  destruct (tiny (mass d)); [discriminate|].
   destruct (Qeq_bool (mass d) 1) eqn:E1.
   - apply Qeq_bool_iff in E1. rewrite (close1_one _ E1) in Ec. discriminate.
   - split; [reflexivity|]. split; [|inversion H; reflexivity].
@@ -235,12 +262,29 @@ Proof.
       apply Hf; assumption.
 Qed.
 
-Lemma make_accepts d : valid d = true -> 0 < mass d -> exists p, make d true = Ok p.
+Lemma make_accepts d : valid d = true -> 0 < mass d -> tiny (mass d) = false -> exists p, make d true = Ok p.
 Proof.
-  intros Hv Hm. unfold make. rewrite Hv. cbn [negb]. destruct (close1 (mass d)); [eexists; reflexivity|].
-  unfold normalize_dict. destruct (Qeq_bool (mass d) 0) eqn:E0.
+  intros Hv Hm Ht. unfold make. rewrite Hv. cbn [negb]. destruct (close1 (mass d)); [eexists; reflexivity|].
+  unfold normalize_dict. rewrite Ht. destruct (Qeq_bool (mass d) 0) eqn:E0.
   - apply Qeq_bool_iff in E0. lra.
   - destruct (Qeq_bool (mass d) 1); eexists; reflexivity.
+Qed.
+
+(* a total in (0, float_min): rejected when normalisation is on ("too small values") *)
+Lemma make_tiny_mass d : valid d = true -> tiny (mass d) = true -> make d true = Err ValueErr.
+Proof.
+  intros Hv Ht. unfold make. rewrite Hv, (tiny_not_close _ Ht). cbn [negb]. unfold normalize_dict.
+  rewrite Ht. destruct (Qeq_bool (mass d) 0); reflexivity.
+Qed.
+
+(* an object built with normalisation on never has such a total *)
+Lemma make_true_not_tiny d p : make d true = Ok p -> tiny (mass d) = false.
+Proof.
+  unfold make. destruct (valid d); [|discriminate]. cbn [negb].
+  destruct (close1 (mass d)) eqn:Ec.
+  - intros _. destruct (tiny (mass d)) eqn:Et; [|reflexivity]. rewrite (tiny_not_close _ Et) in Ec. discriminate.
+  - unfold normalize_dict. destruct (Qeq_bool (mass d) 0); [discriminate|].
+    destruct (tiny (mass d)); [discriminate|reflexivity].
 Qed.
 
 Lemma make_zero_mass d : valid d = true -> mass d == 0 -> make d true = Err ValueErr.
